@@ -135,6 +135,7 @@ type OpTable struct {
 	// Unary: 0 none; 1 a prefix alternative `O1 e` REUSING the first binary
 	// operator's token, qualified tighter than every level; 2 the same at level 1.
 	Unary      int
+	Spelling   int // Grammar.PrecSpelling
 	UnaryLevel int
 	UnaryAssoc int
 	NumOps     int
@@ -159,6 +160,11 @@ func OpTables() []*OpTable {
 							extras, unary = 1, eu-2
 						}
 						t := &OpTable{Order: order, Extras: extras, Unary: unary}
+						// numerals: plain for most; the other spellings ride on the
+						// variants with parentheses (declaration orders 0 and 2)
+						if eu == 1 && order != 1 {
+							t.Spelling = 1 + order/2
+						}
 						next := 0
 						for l := 0; l < k; l++ {
 							n := 1
@@ -187,7 +193,7 @@ func OpTables() []*OpTable {
 }
 
 func (t *OpTable) build() {
-	g := &Grammar{}
+	g := &Grammar{PrecSpelling: t.Spelling}
 	for i := 0; i < t.NumOps; i++ {
 		g.Toks = append(g.Toks, fmt.Sprintf("O%d", i+1))
 		g.Lits = append(g.Lits, string(rune('+'+0))) // placeholder, fixed below
